@@ -204,6 +204,12 @@ func oracle(c *octx) *eng.Violation {
 		return first(c.outcome("error", false, true), c.failStop("fail-stop"))
 	case "C05":
 		return c.cancelRules()
+	case "C19":
+		return first(c.mainEq("behaviour", projFull, false), c.lanesEq("item-behaviour", projFull, false), c.slots("slot"), c.inFlight("concurrency"))
+	case "C17":
+		return first(c.mainEq("payload", projC17, false), c.lanesEq("item-payload", projC17, false), c.slots("slot"))
+	case "C18":
+		return first(c.outcome("action", true, false), c.mainEq("default-connection", projVisits, false))
 	case "C06":
 		return first(c.slots("slot"), c.mainEq("post-once", projC06, false))
 	case "C07":
